@@ -71,20 +71,21 @@ theorem C05_interrupted_reset {P : Program} {s s' : St} {v : Val}
         · cases h
 
 /-- Only completed tasks are persisted: the database changes only when a finished task whose
-`complete` call was seen is processed (or when the database is wiped), and the row written carries
+`complete` call was seen is processed (or when the database is wiped, or rolled back to the last commit by a crash), and the row written carries
 the dependency list recorded for that same execution. -/
 theorem C05_persisted_only_completed {P : Program} {s s' : St} {e : Event}
     (h : step P s e = some s') (hdb : s'.db.res ≠ s.db.res) :
-    e = .wipe ∨ ∃ k row, e = .finished k row ∧ s.status k = .computing ∧ (s.task k).completed = true ∧
+    e = .wipe ∨ e = .crash ∨ ∃ k row, e = .finished k row ∧ s.status k = .computing ∧ (s.task k).completed = true ∧
       (s'.db.res k).deps = row.deps ∧ (s'.db.res k).value = (s.mem.res k).value := by
   cases e <;> simp only [step] at h
   case wipe => left; rfl
+  case crash => right; left; rfl
   case finished k row =>
     split at h
     · rename_i hc
       cases h
       simp only [Bool.and_eq_true, beq_iff_eq] at hc
-      right
+      right; right
       exact ⟨k, row, rfl, hc.1.1.1.1.1.1.1.1.1, hc.1.1.1.1.1.1.1.2, by simp, by simp⟩
     · cases h
   case ret v =>
